@@ -325,7 +325,9 @@ def c_manager(chk):
         cfgB = SymObj(None, None, label="configBoltzmannSolver", attrs={"collisionMultiplier": real("collisionMultiplier")})
         cfg = SymObj(None, None, label="config", attrs={"configGrid": cfgGrid, "configEOM": cfgEOM, "configBoltzmannSolver": cfgB})
         model = SymObj("GenericModel", "genericModel", label="model", attrs={"outOfEquilibriumParticles": Opaque("particles"), "fieldCount": 2})
-        man = SymObj("WallGoManager", "manager", label="manager")
+        # attributes this pre-state does not declare hold whatever earlier calls on the manager left behind (Stale):
+        # reading one is the failed obligation no-read-of-stale-state.manager.<attr>, writing through one is a store on the manager
+        man = SymObj("WallGoManager", "manager", label="manager", rest="stale")
         man.attrs.update(config=cfg, model=model, thermodynamics=SymObj("Thermodynamics", "thermodynamics", label="thermodynamics"),
                          hydrodynamics=SymObj("Hydrodynamics", "hydrodynamics", label="hydrodynamics"),
                          phasesAtTn=SymObj("PhaseInfo", "containers", label="phasesAtTn", attrs={"temperature": T0}),
